@@ -123,6 +123,11 @@ Section MerkleFacts.
     eapply build_levels_inj; try eassumption; apply pad_leaves_len32; assumption.
   Qed.
 
+End MerkleFacts.
+
+Section MerkleTotal.
+  Variable H : bytes -> bytes.
+
   (** the root computation is total: the fuel given by [merkle_root] always suffices *)
   Lemma pair_up_shrinks : forall l, 3 <= List.length l ->
     2 <= List.length (pair_up H l) /\ List.length (pair_up H l) < List.length l.
@@ -154,7 +159,7 @@ Section MerkleFacts.
     - rewrite app_length; simpl. lia.
     - simpl in *. destruct t; [discriminate | simpl; lia].
   Qed.
-End MerkleFacts.
+End MerkleTotal.
 
 (** odd-length duplication: a list of odd length and the same list with its last element
     repeated have the same root, for every hash function.  The tx / receipt root therefore does
